@@ -196,7 +196,12 @@ class Model(Hdf5Exportable):
             ``(Lx, Ly, ..., Lu)`` to ``(Lx*factor, Ly, ..., Lu)``.
 
         """
-        self.lat.enlarge_mps_unit_cell(factor)
+        # `copy()` is shallow: don't modify a lattice which might be shared with other models in place
+        lat = self.lat.copy()
+        if hasattr(lat, 'regular_lattice'):
+            lat.regular_lattice = lat.regular_lattice.copy()
+        lat.enlarge_mps_unit_cell(factor)
+        self.lat = lat
 
     def group_sites(self, n=2, grouped_sites=None):
         """Modify `self` in place to group sites.
